@@ -17,7 +17,9 @@ Tie to /repo on every run:
      float/complex parity-consistent expansions: rotated(p) = original(A p) with an evaluator written from the
      definition; inv(a) * a and a * inv(a) = identity through the requested order, order by order.  One
      evaluation point array (|p| != 1) is handed to all expansions of a case; every library call must leave its
-     arguments (points, operands, A, npowtrans) bit-identical (key c17-input-mutated)."""
+     arguments (points, operands, A, npowtrans) bit-identical (key c17-input-mutated).
+ (V) value semantics / histories: inv and rotate return fresh objects; inv / rotate / reduce repeated on one object after
+     every kind of in-place modification equal the query on a fresh copy, and inv(T)*T = 1 for the modified T."""
 META = dict(
     level="proof",
     text=("Coq theorems: rotatedirections/rotatecoeff is the exact change of variables for every matrix A, every ordered ring, "
@@ -377,6 +379,57 @@ def float_tier(ck, Ts):
             "inv(1 + r x^3) at x=0.6 is %.6g, exact x^6 = %.6g" % (float(np.real(got)), 0.6 ** 6))
 
 
+def semantics_tier(ck, Ts):
+    """value semantics / history independence of the memoisable queries inv() and rotate() (and the class-level rotation table):
+    the result is a fresh object (no memory shared with the expansion, mutating it leaves the expansion unchanged); and on ONE
+    object: query, in-place modification by every route (+=, -=, T[i,j] = S, T[i:j,i:j] += dV through a slice view, in-place
+    scalar product, direct array edit, ildot, irdot), query again == query of a fresh copy of the modified object, and for inv
+    additionally inv(T) * T = 1 through the requested order for the MODIFIED T."""
+    rng = ck.rng; nr = ck.nprng(19)
+    for it in range(ck.n(16, 240)):
+        d = 3 if it % 2 == 0 else 2; T = Ts[d]
+        k = 2
+        a, lead, Nmax, shape = gen_invertible(rng, d, k, False)
+        a = [(n, l, (c + 0.05 * nr.normal(size=c.shape)).astype(complex)) for n, l, c in a]
+        n0 = min(n for n, _, _ in a)
+        route = tc.ROUTES[it % len(tc.ROUTES)]
+        u = nr.normal(size=d); u *= 1.3 / np.linalg.norm(u)
+
+        def inverse_ok(t, inv, _Nmax=Nmax, _n0=n0, _d=d, _route=route):
+            prod = tc.impl_value(inv * t, u, per_order=True)
+            sc = (1 + sum(float(np.abs(c).sum()) for _, _, c in t.coefflist)) * (1 + sum(float(np.abs(c).sum()) for _, _, c in inv.coefflist))
+            err = max([float(np.max(np.abs(np.asarray(v) - (np.eye(k) if n == 0 else 0)))) / sc for n, v in prod.items() if n <= _Nmax + _n0] + [0.0 if 0 in prod else 1.0])
+            if not err <= FTOL:
+                ck.violation("history: after the in-place modification '%s' inv(T)*T differs from 1 through the requested order by %.3g" % (_route, err),
+                             {"dim": _d, "route": _route, "Nmax": _Nmax}, key="c17-history-inv")
+        try:
+            t = T(a)
+            tc.alias_case(ck, "c17", "inv[%dD]" % d, t.inv(Nmax), {"a": t}, T, nr, rng)
+            tc.alias_case(ck, "c17", "inv twice[%dD]" % d, t.inv(Nmax), {"a": t, "first inverse": t.inv(Nmax)}, T, nr, rng)
+            t = T(a)
+            tc.history_case(ck, "c17", "inv(Nmax)", lambda x: x.inv(Nmax), t, route, T, nr, rng, extra_check=inverse_ok)
+            # two modifications in a row, and a different Nmax in between
+            t = T(a); t.inv(Nmax); t.inv(Nmax + 1)
+            tc.history_case(ck, "c17", "inv(Nmax)", lambda x: x.inv(Nmax), t, tc.ROUTES[(it + 3) % len(tc.ROUTES)], T, nr, rng, extra_check=inverse_ok)
+            # rotation of one object before / after an in-place modification, same table
+            A = nr.normal(size=(d, d))
+            npt = T.rotatedirections(A)
+            b = rand_float_parity(nr, rng, d, (k, k), [(n, n) for n in sorted(set(rng.randint(0, 4) for _ in range(3)))], "complex")
+            t = T(b)
+            tc.alias_case(ck, "c17", "rotate[%dD]" % d, t.rotate(npt), {"a": t}, T, nr, rng)
+            tc.history_case(ck, "c17", "rotate(npowtrans)", lambda x: x.rotate(npt), t, route, T, nr, rng)
+            t = T(b)
+            tc.history_case(ck, "c17", "reduce", lambda x: x.copy().reduce(), t, route, T, nr, rng)
+            # the table itself must not be handed out twice as the same array (a caller may scale it)
+            n1 = T.rotatedirections(A); n2 = T.rotatedirections(A)
+            ck.case(key=("table-alias", it), nontrivial=True, kind="fresh-result:rotatedirections")
+            if np.shares_memory(n1, n2):
+                ck.violation("rotatedirections(A) called twice returns arrays sharing memory", {"dim": d, "A": A.tolist()}, key="c17-result-aliases-operand")
+        except (ArithmeticError, ValueError, TypeError, IndexError) as e:
+            ck.violation("implementation raised %s: %s in the history / value-semantics tier (route %s)" % (type(e).__name__, e, route),
+                         {"dim": d, "route": route, "Nmax": Nmax}, key="c17-exception-semantics")
+
+
 def real_dtype_probe(ck, Ts):
     """inv() of an expansion given with REAL coefficient arrays (deterministic inputs): the Neumann loop adds complex
     products in place into the real leading term"""
@@ -416,5 +469,6 @@ def run(ck):
     Ts = tc.classes()
     exact_tier(ck, Ts)
     float_tier(ck, Ts)
+    semantics_tier(ck, Ts)
     real_dtype_probe(ck, Ts)
     tc.flush_guard(ck, "c17")
